@@ -155,6 +155,22 @@ def segment_grid(opcodes=(b"\x8b", b"\x88", b"\xff", b"\x0f\xb6", b"\xd9", b"\x0
     return out
 
 
+def long_prefix_cases():
+    """instructions of 12..24 bytes: runs of 4..19 prefix bytes (one byte repeated, or two alternating) in front of bodies of 1, 5, 7 and 11
+    bytes, in 40-byte windows.  The architectural limit is 15 bytes; what the library does beyond it must at least be the same through
+    every entry point (seed C10-r8-2: dis(bytes) looked at 15 bytes only, dis(stream) at all of them)"""
+    bodies = [bytes.fromhex("90"), bytes.fromhex("b844332211"), bytes.fromhex("83804433221105"), bytes.fromhex("8184244433221178563412"),
+              bytes.fromhex("0fb6848811223344")]
+    out = []
+    for n in range(4, 20):
+        for p in (b"\x2e", b"\x3e", b"\x66", b"\x67", b"\xf0", b"\xf2", b"\xf3", b"\x66\x67", b"\x2e\x66", b"\xf3\x3e"):
+            run_ = (p * n)[:n]
+            for body in bodies:
+                b = run_ + body
+                out.append((b + PATTERN * 4)[:40])
+    return out
+
+
 def x87_cases():
     out = []
     for op in range(0xd8, 0xe0):
